@@ -92,6 +92,10 @@ def run_frontend(ops, storage, compound, frontend, work, rich=False):
         elif frontend == "mp3ms":
             from whoosh.multiproc import MpWriter
             w = MpWriter(ix, procs=3, batchsize=2, multisegment=True)
+        elif frontend == "mp2ms_opt":
+            # multisegment, and every commit also merges the existing segments
+            from whoosh.multiproc import MpWriter
+            w = MpWriter(ix, procs=2, batchsize=1, multisegment=True)
         elif frontend == "async":
             w = writing.AsyncWriter(ix)
         else:
@@ -113,7 +117,10 @@ def run_frontend(ops, storage, compound, frontend, work, rich=False):
         for op in ops:
             w = plain_writer()
             apply_ops(w, [op])
-            w.commit()
+            if frontend == "mp2ms_opt":
+                w.commit(optimize=True)
+            else:
+                w.commit()
     if storage == "copy_to_ram":
         from whoosh.filedb.filestore import copy_to_ram
         ix = copy_to_ram(st).open_index()
@@ -242,13 +249,21 @@ def c_dump(r, schema):
         keyof[docnum] = sf["key"]
         cols = []
         for f in colfields:
+            # a document without a value reads the column's default; when no
+            # segment of the layout has the column at all there is no column
+            # to read: both mean "no value"
             if not r.has_column(f):
-                cols.append([f, "nocolumn"])
+                cols.append([f, "novalue"])
                 continue
             try:
                 cr = r.column_reader(f)
                 v = cr[docnum]
-                cols.append([f, repr(v)])
+                fo = schema[f]
+                try:
+                    dflt = fo.from_column_value(fo.column_type.default_value())
+                except Exception:
+                    dflt = fo.column_type.default_value()
+                cols.append([f, "novalue" if v == dflt else repr(v)])
             except Exception as e:
                 cols.append([f, "exc:%s" % type(e).__name__])
         vec = []
@@ -408,6 +423,7 @@ def task_d(t):
             ref = run_frontend(ops, "ram", True, "plain", work, rich=True)
             for storage, compound, fe in (("file", True, "plain"), ("file", False, "buffered2"), ("ram", True, "async"),
                                           ("file", True, "serialmp"), ("file", True, "mp2"), ("file_nommap", False, "mp3ms"),
+                                          ("file", True, "mp2ms_opt"),
                                           ("copy_to_ram", True, "serialmp")):
                 if fe.startswith("mp") and i % 5 != 0:
                     continue
@@ -830,7 +846,7 @@ def run(ctx):
                 "vectors, field lengths, postings, sort orders) and after close() the reopened index must equal the "
                 "plain-writer reference; Part D: the same operation lists and schema (plus a dynamic *_dyn TEXT field with "
                 "vectors) through {plain on file, BufferedWriter, AsyncWriter, SerialMpWriter, MpWriter 2 procs / 3 procs "
-                "multisegment, copy_to_ram}, final dump incl. per-field length statistics and vectors; Part B: AsyncWriter vs a "
+                "multisegment / 2 procs multisegment with optimizing commits, copy_to_ram}, final dump incl. per-field length statistics and vectors; Part B: AsyncWriter vs a "
                 "lock-holding plain writer and BufferedWriter shared by two adders, an observer and its timer, every "
                 "schedule with <= B preemptions (storage/lock/sleep points; line-level points inside BufferedWriter); "
                 "states/transitions count Part B scheduling decisions/steps; evaluations count all parts"
